@@ -147,4 +147,23 @@ def latest (n : Nat) (evs : List (Nat × List V)) : List (Option V) :=
   evs.foldl slotStep (List.replicate n none)
 
 
+/-! ## the loop when a `server.Send` fails
+
+`err := server.Send(…); if err != nil { cancelFunc(); <-returnErr; return err }`: the loop ends with
+the `failAt`-th Send (0: no Send fails).  State: the loop's state, after how many member messages the
+subscription ended (if it has), the number of messages handled. -/
+
+def pullFeedFail [DecidableEq V] (reduce : List (Option V) → Option V) (failAt : Nat)
+    (acc : PullSt V × Option Nat × Nat) (ev : Nat × List V) : PullSt V × Option Nat × Nat :=
+  match acc with
+  | (st, some k, i) => (st, some k, i)
+  | (st, none, i) =>
+    let st' := pullFeed reduce st ev
+    if failAt ≠ 0 ∧ st.sent.length < failAt ∧ st'.sent.length = failAt then (st', some (i + 1), i + 1)
+    else (st', none, i + 1)
+
+def pullRunFail [DecidableEq V] (reduce : List (Option V) → Option V) (n failAt : Nat)
+    (evs : List (Nat × List V)) : PullSt V × Option Nat × Nat :=
+  evs.foldl (pullFeedFail reduce failAt) (pullInit n, none, 0)
+
 end ScVerif.C17
